@@ -1,7 +1,7 @@
 """C14, predicate part (DESIGN.md section 4, C14 item 1): pathIsPrefixedByPath against a MUST / MUST-NOT / don't-care reference.
 
 run_predicate(chk, tier, sd) builds harness/prefix_mon.cpp on the asan flavor, runs it in shards, adds one violation per
-distinct violation key (smallest witness over all shards) to `chk`, calls chk.add(judged pairs, distinct judged classes),
+distinct violation key (smallest witness over all shards) to `chk`, calls chk.add(judged pairs, distinct judged pairs (hash set per shard, summed)),
 stores the counts in chk.cov["predicate"] and returns the same dict. `sd` (scratch directory) is not needed by this part."""
 import vlib
 
@@ -11,9 +11,9 @@ LIBS = ["llbuildBuildSystem", "llbuildCore", "llbuildBasic", "llvmSupport"]
 def run_predicate(chk, tier, sd=None):
     binp = vlib.build_harness("prefix_mon", "asan", ["prefix_mon.cpp"], libs=LIBS)
     shards = vlib.NCPU
-    # exhaustive: every (path, root) over {'/','a','b','.'} up to L characters: L=4 -> 116,281 pairs, L=6 -> 29.8 million
-    ex_len = 4 if tier == "quick" else 6
-    rnd = 200000 if tier == "quick" else 5000000
+    # exhaustive: every (path, root) over {'/','a','b','.'} up to L characters: L=5 -> 1.86 million pairs, L=6 -> 29.8 million
+    ex_len = 5 if tier == "quick" else 6
+    rnd = 1000000 if tier == "quick" else 8000000
     per = (rnd + shards - 1) // shards
     cmds = [[binp, "--seed", str(chk.seed * 1000 + i), "--cases", str(per), "--exhaustive", str(ex_len), "--shard", str(i), "--shards", str(shards)]
             for i in range(shards)]
@@ -39,11 +39,11 @@ def run_predicate(chk, tier, sd=None):
     for key, (_, w) in sorted(col.best.items()):
         w = dict(w, occurrences=counts.get(key, 0), replay="%s --path %s --root %s" % (binp, w.get("path_hex"), w.get("root_hex")))
         chk.violation(key, w)
-    res = {k: vlib.sum_key(sums, k) for k in ("pairs", "exhaustive_pairs", "random_pairs", "must", "must_not", "dont_care", "judged", "violations")}
+    res = {k: vlib.sum_key(sums, k) for k in ("pairs", "exhaustive_pairs", "random_pairs", "must", "must_not", "dont_care", "judged", "distinct_pairs", "violations")}
     res["classes"] = max([s.get("classes", 0) for s in sums] or [0])
     res["exhaustive_max_len"] = ex_len
     res["violations_by_key"] = counts
-    chk.add(res["judged"], res["classes"])
+    chk.add(res["judged"], res["distinct_pairs"])
     chk.cov["predicate"] = res
     chk.cov["predicate_rule"] = ("pair = (path, root); reference = four lexical readings (literal components / separators collapsed / '.' dropped / '..' resolved), "
                                  "one trailing separator of the root never counts; MUST true when all readings agree and no doubled separator occurs, MUST-NOT when "
